@@ -1,4 +1,5 @@
 import Scc.Props.C11Counts
+import Scc.Props.C11
 
 namespace Scc.Props.C11
 open Scc.PMoves
@@ -120,6 +121,33 @@ theorem C11_counts_balance (tfp : Nat → Option Nat) (re : Rearrange) (ctx : Ct
   rw [C11_counts, sum_bindingDelta, sum_targetCount ctx hnd]
   unfold newRefs oldRefs
   omega
+/-- Link to the moves (`C11_substitution_correct`): every new variable counted by `newRefs` -- bound to an
+    old OBJECT variable whose `Fst` temporary holds `v` -- has, after the moves of the same statement, a
+    `Fst` temporary holding `v`.  So `C11_counts_balance` reads: count after = count before
+    + (new variables now referring to `v`) − (old variables that referred to `v`). -/
+theorem C11_new_variable_holds (re : Rearrange) (ctx : Ctx) (csE : Root → Bool)
+    (hctx : (ctx.map (·.1)).Nodup) (hnew : (re.map (·.1.1)).Nodup) :
+    ∃ rc mv, codeSubstitute genericTemporary re ctx csE = .ok rc mv ∧
+      rc = ctx.flatMap (refOpsFor genericTemporary re ctx) ∧
+      ∀ (σ : Nat → V) (sc : V) (v : V), ∀ e ∈ re, ∀ b ∈ ctx, e.2 = b.1 →
+        objHolds genericTemporary ctx σ v b = true →
+        ∃ t, variableTemporary genericTemporary 0 (newContext re) e.1.1 = some t ∧
+          (run mv (σ, sc)).1 t = v := by
+  obtain ⟨rc, mv, hcode, hrc, hmoves⟩ := C11_substitution_correct (V := V) re ctx csE hctx hnew
+  refine ⟨rc, mv, hcode, hrc, ?_⟩
+  intro σ sc v e he b hb heb hobj
+  unfold objHolds at hobj
+  have hext : b.2 ≠ Chi.ext := by
+    intro h; simp [h] at hobj
+  cases hvs : variableTemporary genericTemporary 0 ctx b.1 with
+  | none => simp [hvs] at hobj
+  | some s =>
+    have hσ : σ s = v := by simpa [hvs, hext] using hobj
+    have hmem : e.1 ∈ newContext re := List.mem_map.mpr ⟨e, he, rfl⟩
+    obtain ⟨p, _, _, hvt⟩ := variableTemporary_of_mem genericTemporary 0 hmem
+    refine ⟨2 * p + 0, by rw [hvt]; rfl, ?_⟩
+    rw [(hmoves σ sc).1 s (2 * p + 0) ⟨b, hb, e, he, heb, 0, Or.inr ⟨rfl, hext⟩, hvs, by rw [hvt]; rfl⟩]
+    exact hσ
 
 end
 
@@ -132,3 +160,5 @@ end Scc.Props.C11
 
 open Scc.Props.C11 in
 #print axioms C11_counts_balance
+open Scc.Props.C11 in
+#print axioms C11_new_variable_holds
